@@ -17,6 +17,9 @@ def run_main(chk, replay=None):
                        "runs: PLAIN/VEGAS/multi-channel iterations with 3 distributions and 0-2 fills each per call, every bin recomputed by the spec; "
                        "non-trivial = coordinate on an edge, outside the range or non-finite")
     chk.model("MC_Bins", what="MC_Bins: BinOf laws, flat order = mid-point order, huge coordinate never bin 0")
+    # storage layout of several distributions in one flat array: every bin has a pair of slots of its own, what is read for a bin is what was filled
+    chk.model("MC_Layout", "MC_Layout", what="MC_Layout (all lists of 1-3 distributions over 6 shapes, 2 fills): InBounds, NoAlias, ReadsOwnFills")
+    chk.model("MC_Layout", "MC_Layout_bx", what="MC_Layout with a writer that advances by 2 bx per distribution: slots alias (non-vacuity)", expect_violation="NoAlias")
     # the one-axis law for unbounded integers (Apalache / Z3)
     import os
     import shutil
